@@ -1,7 +1,7 @@
 (* C10 -- VCS steps run only as configured, in order, and stop at the first failure.
    Checked over the complete product all_cfgs x all_opts x all_worlds (45 x 432 x 768 points). *)
 From Coq Require Import List Bool NArith.
-From BV Require Import Lib.PyStr Model.Vcs Proofs.VcsFacts.
+From BV Require Import Lib.PyStr Model.Vcs Proofs.VcsFactsC10.
 Import ListNotations.
 Local Open Scope N_scope.
 
